@@ -2,6 +2,7 @@ package props
 
 import (
 	"fmt"
+	"strings"
 
 	"github.com/taurusgroup/multi-party-sig/verif/fw"
 	"github.com/taurusgroup/multi-party-sig/verif/mut"
@@ -54,6 +55,10 @@ func runC05(c *fw.Ctx) {
 				first = first[:300]
 			}
 			c.Violate("panic@"+nd.PanicFn, "honest party %q panicked while processing traffic from deviating party %q\n  alteration: %s in %s (%s)\n  %s", id, b.Cheater, b.Applied, b.AppliedAt, b.Sc.Name, nd.Panic)
+		}
+		if nd.PoolTaskPanics > 0 {
+			_, rerr := nd.H.Result()
+			c.Violate("panic-inside-pool-task/"+b.Sc.Proto.String()+"/"+b.Sc.Kind.String()+"/"+b.AppliedAt[:strings.Index(b.AppliedAt, "/to=")]+"/"+b.Applied.Path.Class(), "honest party %q: a panic was raised INSIDE a worker-pool task while processing traffic from %q (recovered here only because the simulated party runs with a nil pool; with a real pool it kills the process on a worker goroutine)\n  alteration: %s in %s (%s)\n  handler result: %v", id, b.Cheater, b.Applied, b.AppliedAt, b.Sc.Name, rerr)
 		}
 		if nd.Hang {
 			c.Violate("hang/"+b.where(), "honest party %q: Accept did not return within the watchdog bound\n  alteration: %s in %s\n%s", id, b.Applied, b.AppliedAt, nd.HangStack)
